@@ -316,12 +316,31 @@ Proof.
 Qed.
 
 (* ================================================================ amalgamate: joining pieces *)
+(* a pointer array of n + 1 entries passes through the zero-padded copy of
+   amalgamate_csr_to_x unchanged when n is the row count announced *)
+Lemma amalgamate_ptr_id (P : list nat) n :
+  length P = S n ->
+  (S n <? length (removelast P)) = false /\
+  firstn n (removelast P ++ repeat 0 (n - length (removelast P))) ++ [last P 0] = P.
+Proof.
+  intros HL. assert (HP : P <> []) by (destruct P; [discriminate | discriminate]).
+  pose proof (app_removelast_last 0 HP) as E.
+  assert (HB : length (removelast P) = n).
+  { apply (f_equal (@length nat)) in E. rewrite app_length in E. cbn in E. lia. }
+  rewrite HB. split; [apply Nat.ltb_ge; lia|].
+  rewrite Nat.sub_diag. cbn [repeat]. rewrite app_nil_r.
+  rewrite <- HB at 1. rewrite firstn_all. symmetry. exact E.
+Qed.
+
 Lemma amalgamate_csr_rows Rs :
   Forall (Forall row_ok) Rs ->
   amalgamate_csr (map of_rows Rs) (length (concat Rs)) = Ok (of_rows (concat Rs)).
 Proof.
-  intros H. unfold amalgamate_csr. rewrite merge_csr_rows by exact H. cbn [bind].
-  unfold of_rows at 1. cbn [ptr length]. rewrite cumsum_length, map_length, Nat.eqb_refl. reflexivity.
+  intros H. unfold amalgamate_csr. rewrite merge_csr_rows by exact H. cbn [bind]. cbv zeta.
+  assert (HL : length (ptr (of_rows (concat Rs))) = S (length (concat Rs))).
+  { unfold of_rows. cbn [ptr length]. rewrite cumsum_length, map_length. reflexivity. }
+  destruct (amalgamate_ptr_id _ _ HL) as [E1 E2]. rewrite E1, E2.
+  destruct (of_rows (concat Rs)); reflexivity.
 Qed.
 
 Definition rows_inv (nc : nat) (R : list srow) : Prop :=
